@@ -116,6 +116,51 @@ class Native:
         subprocess.run(['ar', 'rcs', s.lib] + objs, check=True)
         return s.lib
 
+    def build_plain(s):
+        if getattr(s, 'plain', None): return s.plain
+        d = os.path.join(s.ctx.dir, 'plain'); os.makedirs(d, exist_ok=True)
+        def one(f):
+            o = os.path.join(d, f[:-2] + '.o')
+            r = subprocess.run(['gcc', '-w', '-O0', '-g', '-DHAVE_CONFIG_H', '-I' + core.REPO, '-I' + core.SRC, '-c', os.path.join(core.SRC, f), '-o', o], capture_output=True, text=True)
+            if r.returncode != 0: raise RuntimeError('gcc failed on %s: %s' % (f, r.stderr[-1000:]))
+            return o
+        with ThreadPoolExecutor(core.NCPU) as ex: objs = list(ex.map(one, s.ctx.lib_sources()))
+        s.plain = os.path.join(d, 'libvna_plain.a')
+        subprocess.run(['ar', 'rcs', s.plain] + objs, check=True)
+        return s.plain
+
+    def run_valgrind(s, csrc, outdir, name='replay', timeout=120):
+        """reads of uninitialised memory are invisible to ASan / UBSan: the same program under valgrind memcheck (gcc -O0 build)"""
+        os.makedirs(outdir, exist_ok=True)
+        src = os.path.join(outdir, name + '.c'); open(src, 'w').write(csrc)
+        exe = os.path.join(s.ctx.dir, 'vg_%d_%s' % (os.getpid(), re.sub(r'\W', '_', name)))
+        r = subprocess.run(['gcc', '-w', '-O0', '-g', '-I' + core.SRC, '-I' + core.REPO, src, s.build_plain(), '-lyaml', '-lm', '-o', exe], capture_output=True, text=True)
+        if r.returncode != 0: return False, 'native build failed', r.stderr[-1500:]
+        try:
+            p = subprocess.run(['valgrind', '-q', '--error-exitcode=9', exe], capture_output=True, text=True, errors='replace', timeout=timeout, cwd=outdir)
+        except subprocess.TimeoutExpired:
+            return False, 'valgrind run timed out', ''
+        finally:
+            pass
+        outp = (p.stdout + p.stderr)[-4000:]
+        try: os.unlink(exe)
+        except OSError: pass
+        open(os.path.join(outdir, 'valgrind.log'), 'w').write(outp)
+        open(os.path.join(outdir, 'replay.sh'), 'w').write(
+            '#!/bin/sh\n# re-run under valgrind memcheck (uninitialised reads): gcc -O0 build of /repo/src\nset -e\nd=$(mktemp -d)\n'
+            'for f in /repo/src/vna*.c; do case $f in *example*) continue;; esac; gcc -w -O0 -g -DHAVE_CONFIG_H -I/repo -I/repo/src -c $f -o $d/$(basename $f .c).o; done\n'
+            'gcc -w -O0 -g -I/repo/src -I/repo %s.c $d/*.o -lyaml -lm -o $d/replay\ncd $(dirname $0) && valgrind -q --error-exitcode=9 $d/replay; rc=$?; rm -rf $d; exit $rc\n' % name)
+        os.chmod(os.path.join(outdir, 'replay.sh'), 0o755)
+        if p.returncode == 9 or 'uninitialised' in outp: return True, 'valgrind memcheck: use of uninitialised value', outp
+        return False, 'valgrind run is clean', outp
+
+    def confirm(s, csrc, outdir, fault=None, extra_files=None):
+        """sanitizer build first; a read of uninitialised memory (invisible to ASan / UBSan) goes to valgrind"""
+        ok, how, outp = s.run_c(csrc, outdir, extra_files=extra_files)
+        if not ok and fault and 'uninitialised' in fault:
+            return s.run_valgrind(csrc, outdir)
+        return ok, how, outp
+
     def run_c(s, csrc, outdir, name='replay', timeout=60, extra_files=None):
         """compile + run a C program against the sanitizer build; returns (confirmed: bool, how: str, output tail)"""
         os.makedirs(outdir, exist_ok=True)
